@@ -37,6 +37,8 @@ Section E2E.
 End E2E.
 
 Definition has_json (ppl : list stage) : bool := existsb (fun st => match st with PParser PJson _ => true | _ => false end) ppl.
+Definition has_relabel (ppl : list stage) : bool :=
+  existsb (fun st => match st with PParser PJson _ | PDrop _ => true | _ => false end) ppl.
 Definition no_drop (ppl : list stage) : bool := forallb (fun st => match st with PDrop _ => false | _ => true end) ppl.
 (* what the writer maintains beyond db_ok: a fingerprint is a function of the label set, and is a UInt64 *)
 Definition fp_of_labels_ok (d : LogqlSem.database) : Prop :=
